@@ -150,6 +150,8 @@ type Compiler struct {
 	// evaluation for configd:must statements when using tools that are run
 	// without custom function plugins present (eg yangc / DRAM).
 	userFnChecker xpath.UserCustomFunctionCheckerFn
+	// typedefs whose base type is currently being resolved (cycle detection)
+	typedefsInProgress map[parse.Node]bool
 }
 
 const (
@@ -2417,6 +2419,14 @@ func (c *Compiler) BuildBaseType(
 	if refType == nil {
 		return c.makeBuiltinType(cfgNode, typ, tname.Local, def, hasDef, parentStatus), tname, true
 	}
+	if c.typedefsInProgress[refType] {
+		c.error(typ, fmt.Errorf("typedef cycle detected: %s", typeName))
+	}
+	if c.typedefsInProgress == nil {
+		c.typedefsInProgress = make(map[parse.Node]bool)
+	}
+	c.typedefsInProgress[refType] = true
+	defer delete(c.typedefsInProgress, refType)
 	c.assertReferenceStatus(typ, refType, parentStatus)
 
 	typ2 := refType.ChildByType(parse.NodeTyp)
